@@ -1,6 +1,6 @@
 (* Props/C06.v — property theorems only.  C06: hybrid loads conserve every month's ground energy. *)
 From Coq Require Import ZArith QArith List.
-From GHE Require Import Base.QUtil gen.Src Model.Hybrid Proof.HybridP.
+From GHE Require Import Base.QUtil gen.Src Model.Hybrid Proof.HybridP Proof.SplitP.
 Import ListNotations.
 Open Scope Q_scope.
 
@@ -39,3 +39,19 @@ Example C06_nonvacuous :
               daycl := 10; dayhl := 3; fmh := 745; lmh := 1416 |} in
   energy 744 (segments m) == 600 /\ length (segments m) = 5%nat.
 Proof. cbv zeta. split; [vm_compute; reflexivity | reflexivity]. Qed.
+
+(* from the input profile to the two hourly series, split_heat_and_cool REGENERATED from ground_loads.py, for EVERY profile (W, extraction
+   positive): the series have the profile's length, are non-negative kW values, never both non-zero in one hour, and extraction minus rejection
+   is the profile / 1000 — "the month's net hourly ground load of the input profile (rejection minus extraction)" is therefore minus the profile in kW.
+   (The monthly totals, peaks and peak days taken from these series by the regenerated split_loads_by_month are validated against the real method on
+   whole years of loads on every run; their closed form is not proved.) *)
+Theorem C06_hourly_split_lengths : forall raw : list Q,
+  length (fst (split_heat_and_cool raw)) = length raw /\ length (snd (split_heat_and_cool raw)) = length raw.
+Proof. exact split_lengths. Qed.
+Print Assumptions C06_hourly_split_lengths.
+Theorem C06_hourly_split_is_the_profile : forall (raw : list Q) (k : nat), (k < length raw)%nat ->
+  let rej := nth k (fst (split_heat_and_cool raw)) 0 in
+  let ext := nth k (snd (split_heat_and_cool raw)) 0 in
+  0 <= rej /\ 0 <= ext /\ (rej == 0 \/ ext == 0) /\ ext - rej == nth k raw 0 / 1000.
+Proof. exact split_pointwise. Qed.
+Print Assumptions C06_hourly_split_is_the_profile.
